@@ -232,7 +232,11 @@ class Session:
     def predict(self, op, mh, teams, group="", role="", aux=None):
         fn = {"win": "predict_win", "draw": "predict_draw", "rank": "predict_rank"}[op]
         ev = {"op": op, "model0": dict(mh.constructed, id=mh.id), "model": self.enc_model(mh), "teams": self.enc(teams)}
-        kind, val, exc = self.outcome_of(lambda: getattr(mh.m, fn)(teams))
+        stage_log = []
+        with (stages.observe(mh.m, stage_log) if getattr(self, "stages_on", False) else contextlib.nullcontext()):
+            kind, val, exc = self.outcome_of(lambda: getattr(mh.m, fn)(teams))
+        if getattr(self, "stages_on", False):
+            ev["stages"] = stages.to_predict_records(stage_log, teams)
         ev["out"] = {"kind": kind, "exc": exc, "value": self.enc(val)}
         ev["after"] = self.enc(teams)
         ev["model_after"] = self.enc_model(mh)
@@ -287,8 +291,16 @@ class Session:
         return val
 
     def deepcopy(self, x, group="", role=""):
-        ev = {"op": "deepcopy", "arg": self.enc(x)}
-        kind, val, exc = self.outcome_of(lambda: copy.deepcopy(x))
+        # looking at an object is not free of effects if it builds parts of itself on first use (an id made when first
+        # read): every other copy is therefore taken BEFORE the recorder has looked at the original - as a program would
+        # that builds a player and stores a copy without ever printing it - and the original is projected afterwards
+        self._dc = getattr(self, "_dc", 0) + 1
+        if self._dc % 2 == 0:
+            kind, val, exc = self.outcome_of(lambda: copy.deepcopy(x))
+            ev = {"op": "deepcopy", "arg": self.enc(x)}
+        else:
+            ev = {"op": "deepcopy", "arg": self.enc(x)}
+            kind, val, exc = self.outcome_of(lambda: copy.deepcopy(x))
         ev["out"] = {"kind": kind, "exc": exc, "value": self.enc(val)}
         ev["arg_after"] = self.enc(x)
         ev["group"], ev["role"] = group, role
